@@ -444,6 +444,13 @@ inner product `⟨x, y⟩ = y^H (B^H B) x`. -/
 def gramInner (o : IOps K R) (n : Nat) (B : Nat → Nat → K) (x y : Nat → K) : K :=
   innerDefault o n (matVec n B x) (matVec n B y)
 
+/-- user form `lambda u, v: np.vdot(C @ v, B @ u)`: sesquilinear but for `C ≠ B` in general
+neither Hermitian nor real on the diagonal; NOT an admissible inner product.  The check uses it
+to pin down what the code does with a value `inner(x, x)` that has an imaginary part
+(`Weighting.norm` takes `.real`); `gramInner o n B = formInner o n B B`. -/
+def formInner (o : IOps K R) (n : Nat) (B C : Nat → Nat → K) (x y : Nat → K) : K :=
+  innerDefault o n (matVec n B x) (matVec n C y)
+
 /-- user norm `lambda u: np.max(w * np.abs(u))` (weighted max norm). -/
 def wMaxNorm (abs : K → R) (n : Nat) (w : Nat → R) (x : Nat → K) : R :=
   maxTo n (fun i => w i * abs (x i))
